@@ -90,6 +90,65 @@ mod blob_types {
     }
 }
 
+/// A client sink that stores what it receives as compressed pages — using the library's own `write_compressed` from
+/// inside its `write_bytes`.  Writing a compressed block to such a sink re-enters `write_compressed` on the same
+/// thread while the outer frame is being written; the pages must add up to exactly the outer frame.
+fn block_into_a_compressing_sink(acc: &mut Acc, data: &[u8], level: u32, frame: &[u8]) {
+    struct Paged {
+        pages: Vec<u8>,
+        pending: Vec<u8>,
+    }
+    impl Paged {
+        fn flush(&mut self, all: bool) {
+            while self.pending.len() >= 64 || (all && !self.pending.is_empty()) {
+                let n = self.pending.len().min(64);
+                let page: Vec<u8> = self.pending.drain(..n).collect();
+                self.pages.write_compressed(&page, Compression::new(1)).expect("page");
+            }
+        }
+    }
+    impl BinaryOutput for Paged {
+        fn write_u8(&mut self, v: u8) {
+            self.pending.push(v);
+            self.flush(false);
+        }
+        fn write_bytes(&mut self, b: &[u8]) {
+            self.pending.extend_from_slice(b);
+            self.flush(false);
+        }
+    }
+    let r = guarded(
+        || -> Result<Vec<u8>, String> {
+            let mut sink = Paged { pages: Vec::new(), pending: Vec::new() };
+            sink.write_compressed(data, Compression::new(level)).map_err(|e| e.to_string())?;
+            sink.write_u8(0x77);
+            sink.flush(true);
+            // unpack the pages again
+            let mut input = SliceInput::new(&sink.pages);
+            let mut out = Vec::new();
+            while input.pos < sink.pages.len() {
+                out.extend_from_slice(&input.read_compressed().map_err(|e| format!("page: {e}"))?);
+            }
+            Ok(out)
+        },
+        |_| None,
+    );
+    let want: Vec<u8> = [frame, &[0x77u8][..]].concat();
+    match r {
+        Outcome::Done(Ok(got)) if got == want => acc.count("blocks_into_a_compressing_sink_ok"),
+        Outcome::Done(Ok(got)) => acc.violation(
+            "C16|compressing_sink|other_bytes".to_string(),
+            J::obj().with("check", J::s("C16")).with("mode", J::s("content")).with("size", J::u(data.len() as u64)).with("level", J::u(level)).with("got", J::s(short(&got))).with("expected", J::s(short(&want))),
+        ),
+        Outcome::Done(Err(e)) => acc.violation("C16|compressing_sink|error".to_string(), J::obj().with("check", J::s("C16")).with("mode", J::s("content")).with("size", J::u(data.len() as u64)).with("what", J::s(e))),
+        Outcome::Panicked(p) => acc.violation(
+            "C16|compressing_sink|panic".to_string(),
+            J::obj().with("check", J::s("C16")).with("mode", J::s("content")).with("size", J::u(data.len() as u64)).with("level", J::u(level)).with("what", J::s(format!("{}: {}", monitors::normalise_site(&p.site), p.msg))),
+        ),
+        Outcome::StepBudget(_) => {}
+    }
+}
+
 /// number of deflate bytes of a frame (what follows its two length fields)
 fn payload_len(frame: &[u8]) -> usize {
     let mut i = SliceInput::new(frame);
@@ -311,7 +370,10 @@ fn judge_corrupted(acc: &mut Acc, class: &str, frame: &[u8]) {
 /// Release lane only (4 GiB through the deflater: under two seconds optimised, far longer in a debug build).
 fn block_beyond_the_length_field(acc: &mut Acc) {
     let n = (1usize << 32) + 5;
-    let big = vec![0u8; n];
+    let Some(big) = sbase::zeroed(n) else {
+        acc.count("skipped_for_lack_of_address_space");
+        return;
+    };
     acc.case(Some(n as u64));
     let r = guarded(
         || {
@@ -406,6 +468,7 @@ pub fn c16(ctx: &mut Ctx, acc: &mut Acc) -> i32 {
                     acc.max("max_single_allocation_over_twice_produced_permille", if data.len() > 32768 { (sa.max_single as u64 * 1000) / (2 * data.len() as u64) } else { 0 });
                     if *size <= (1 << 20) {
                         through_contexts(acc, &data, level, &frame);
+                        block_into_a_compressing_sink(acc, &data, level, &frame);
                     }
                     if ok && alloc_ok {
                         acc.count("frames_round_trip");
